@@ -1,6 +1,6 @@
 (** C07 — entry points of the correspondence check (model side). *)
 From Coq Require Import ZArith List Bool Arith.
-From KV Require Import Base.Corr C03.Model C07.Model C07.Multi.
+From KV Require Import Base.Outcome Base.Corr C03.Model C04.Transport C07.Model C07.Multi.
 Import ListNotations.
 Local Open Scope Z_scope.
 
@@ -19,8 +19,16 @@ Inductive case :=
     [state()]; 1 = static sound, [state()] and the position (whole seconds, as reported one
     callback later); 2 = streaming sound, the kinds read on the audio thread, [state()];
     3 = sub-track, [state()]; 4 = sub-track with a static sound on it, both [state()]s
-    ([start] = 10 * track state + sound state).  [start]: the playback state before the history. *)
-| CMulti (rk : Z) (start : Z) (h : list (Z * Z * Z)).
+    ([start] = 10 * track state + sound state).  [start]: the playback state before the history;
+    for [rk = 1]: state + 10 * (ls + 100 * le), the loop region [ls .. le] (whole seconds) of the
+    sound's settings ([le <= ls]: none). *)
+| CMulti (rk : Z) (start : Z) (h : list (Z * Z * Z))
+(** the decoder thread of a streaming sound with [nf] frames, started at frame [pos0] with the loop
+    region [ls0 .. le0] (frames; [le0 <= ls0]: none).  [(k, x, y)], [k >= 0]: a decoder-side
+    command (0 set_loop_region [x .. y], 1 seek_by whose target frame is [x], 2 seek_to frame [x]);
+    [k < 0]: one step of [DecodeScheduler::run].  Observable: the index of the frame each step
+    pushes. *)
+| CDec (nf pos0 ls0 le0 : Z) (h : list (Z * Z * Z)).
 
 Definition enc_rets (r : list (nat * option (nat * val))) : list Z :=
   flat_map (fun e => match e with
@@ -75,6 +83,18 @@ Fixpoint multi_obs {St : Type} (apply : nat -> val -> St -> St) (order : list na
       | Issue k v => multi_obs apply order post obs t (m_issue k v r)
       end
   end.
+Fixpoint dec_obs (nf : Z) (h : list (Z * Z * Z)) (r : res (outcome transport)) : list Z :=
+  match h with
+  | [] => []
+  | o :: t =>
+      match ev_of o with
+      | Callback =>
+          let r1 := m_callback (decz_apply nf) dec_order r in
+          let r2 := Res (m_slots r1) (dec_push 400 nf (m_state r1)) (m_ncb r1) (m_log r1) in
+          (match m_state r1 with Ok tr => t_pos tr | _ => -1 end) :: dec_obs nf t r2
+      | Issue k v => dec_obs nf t (m_issue k v r)
+      end
+  end.
 Definition snd_code (s : sndst) : Z := state_code (ps (sn_psm s)).
 Definition trk_code (t : trk) : Z := state_code (ps (tk_psm t)).
 
@@ -91,7 +111,8 @@ Definition run (c : case) : list Z :=
       if rk =? 0 then
         multi_obs snd_apply static_order (fun s => s) (fun s => [snd_code s]) h (m_init (snd_init start))
       else if rk =? 1 then
-        multi_obs snd_apply static_order snd_process (fun s => [snd_code s; sn_heard s]) h (m_init (snd_init start))
+        multi_obs snd_apply static_order snd_process (fun s => [snd_code s; sn_heard s]) h
+          (m_init (snd_init_loop (start mod 10) (Some ((start / 10) mod 100, start / 1000))))
       else if rk =? 2 then
         multi_obs snd_apply streaming_order (fun s => s) (fun s => [snd_code s]) h (m_init (snd_init start))
       else if rk =? 3 then
@@ -99,4 +120,6 @@ Definition run (c : case) : list Z :=
       else
         multi_obs ts_apply ts_order (fun s => s) (fun s => [trk_code (fst s); snd_code (snd s)]) h
           (m_init (Trk (psm_of_code (start / 10)) 0, snd_init (start mod 10)))
+  | CDec nf pos0 ls0 le0 h =>
+      dec_obs nf h (m_init (Ok (transport_new pos0 (Some (ls0, le0)) false nf)))
   end.
